@@ -191,3 +191,163 @@ C["kneeliverse.rdp.rdp"] = dict(
         var="2 * (%s - 1 - %s) - %s" % (N, FRONT, SZ),
     )},
 )
+
+
+# ================================================================== C01 / C05: fixed-size RDP (mode U)
+STK = "Seq[Tup[Real,Int,Int]]"
+SZ3 = "len(stack)"
+WSUM = "(SumRange(stack[:, 2], 0, len(stack)) - SumRange(stack[:, 1], 0, len(stack)) - 2 * len(stack))"
+
+
+def state_ok(stack="stack", reduced="reduced"):
+    """the refinement state shared by _rdp_fixed and _grdp: `reduced` is a duplicate-free index set containing both ends; the work list
+    holds pairwise disjoint segments with interior points none of which is retained yet; the interior points of the pending segments are
+    exactly the points not retained (counting identity)"""
+    st, rd = stack, reduced
+    wsum = WSUM.replace("stack", st)
+    return [
+        "len(%s) >= 2" % rd,
+        "forall(0, len(%s), lambda m: 0 <= %s[m] and %s[m] <= len(points) - 1)" % (rd, rd, rd),
+        "forall2(0, len(%s), lambda a, b: %s[a] != %s[b])" % (rd, rd, rd),
+        "exists(0, len(%s), lambda m: %s[m] == 0)" % (rd, rd),
+        "exists(0, len(%s), lambda m: %s[m] == len(points) - 1)" % (rd, rd),
+        "forall(0, len(%s), lambda k: 0 <= %s[k][1] and %s[k][2] <= len(points) and %s[k][2] - %s[k][1] > 2)" % (st, st, st, st, st),
+        "forall(0, len(%s), lambda k: forall(0, len(%s), lambda m: %s[m] <= %s[k][1] or %s[m] >= %s[k][2] - 1))" % (st, rd, rd, st, rd, st),
+        "forall2(0, len(%s), lambda a, b: %s[a][2] - 1 <= %s[b][1] or %s[b][2] - 1 <= %s[a][1])" % (st, st, st, st, st),
+        "len(points) - len(%s) == %s" % (rd, wsum),
+    ]
+
+
+DISTFN = dict(params={"a0": PTS, "a1": "Tup[Real,Real]", "a2": "Tup[Real,Real]"}, returns="Seq[Real]",
+              requires=[], returns_expr="ufa('DistP', 'Real', len(a0), _self, a0, a1, a2)",
+              ensures=["forall(0, len(a0), lambda i: result[i] >= 0)"])
+for _o, _ps in (("order_triangle", True), ("order_area", True), ("order_segment", False)):
+    _p = {"pt": PTS, "index": "Int"}
+    if _ps:
+        _p["distance_points"] = "Fn"
+    C["kneeliverse.rdp." + _o] = dict(
+        mode="U", summary=True, params=_p, returns="Tup[Real,Real]",
+        requires=["1 <= index and index <= len(pt) - 2"],
+        ensures=["result[0] == uf('Score_%s', 'Real', pt[0:index+1])" % _o, "result[1] == uf('Score_%s', 'Real', pt[index:len(pt)])" % _o],
+    )
+
+C["kneeliverse.rdp._rdp_fixed"] = dict(
+    mode="U", owner="C01",
+    params={"points": PTS, "length": "Int", "distance_points": "Fn", "order": ORDER, "stack": STK, "reduced": "Seq[Int]"},
+    list_params=["stack", "reduced"], modifies=["stack", "reduced"], returns="Seq[Int]", returns_list=True,
+    callables={"distance_points": DISTFN},
+    requires=["len(points) >= 2"] + state_ok(),
+    post_hints=[
+        "len(result) == len(reduced) and len(result) >= 2",
+        "forall(0, len(result), lambda k: 0 <= result[k] and result[k] <= len(points) - 1)",
+        "exists(0, len(result), lambda j: result[j] == 0)",
+        "exists(0, len(result), lambda j: result[j] == len(points) - 1)",
+        "forall2(0, len(result), lambda a, b: result[a] <= result[b])",
+        "result[0] <= 0",
+        "result[len(result)-1] >= len(points) - 1",
+    ],
+    ensures=[
+        # (W) sorted, duplicate-free, both ends, in range
+        "forall2(0, len(result), lambda a, b: result[a] < result[b])",
+        "result[0] == 0 and result[len(result)-1] == len(points) - 1",
+        # (N) exact size: one index per refinement step until the budget or the curve is exhausted
+        "len(result) == min2(len(old(reduced)) + max2(old(length), 0), len(points))",
+        "seq_eq(result, reduced)",
+    ],
+    loops={0: dict(
+        inv=state_ok() + [
+            "length <= old(length)",
+            "implies(old(length) <= 0, length == old(length))",
+            "implies(old(length) > 0, length >= 0)",
+            "len(reduced) == len(old(reduced)) + (old(length) - length)",
+            "pigeonhole(reduced, len(points))",
+        ],
+        # (T) one refinement step per iteration, at most `length` of them
+        var="length",
+    )},
+)
+
+
+_RF = dict(
+    function="kneeliverse.rdp.rdp_fixed", mode="U", owner="C01",
+    params={"points": PTS, "length": "Int", "distance": DIST, "order": ORDER},
+    returns="Tup[Seq[Int],Seq[Tup[Int,Int]]]",
+    locals={"stack": STK, "reduced": "Seq[Int]"},
+    ensures=[
+        "len(result[0]) == min2(max2(old(length), 2), len(points))",                                # C05 (N): exact size
+        "result[0][0] == 0 and result[0][len(result[0])-1] == len(points) - 1",
+        "forall2(0, len(result[0]), lambda a, b: result[0][a] < result[0][b])",
+        "len(result[1]) == len(result[0]) - 1",
+        "forall(0, len(result[1]), lambda k: result[1][k][0] == result[0][k] and result[1][k][1] == result[0][k+1] - result[0][k] - 1)",
+    ],
+)
+C["kneeliverse.rdp.rdp_fixed#n>2"] = dict(_RF, requires=["len(points) > 2"])
+C["kneeliverse.rdp.rdp_fixed#n=2"] = dict(_RF, requires=["len(points) == 2"])
+
+
+# ================================================================== C01 / C06: global RDP (mode U)
+from contracts.evaluation import seg_err as _seg_err, TSS as _TSS
+SORTED_RED = "forall2(0, len(reduced), lambda a, b: reduced[a] < reduced[b])"
+C["kneeliverse.rdp._grdp"] = dict(
+    mode="U", owner="C01",
+    params={"points": PTS, "t": "Real", "cost": METRIC, "order": ORDER, "distance_points": "Fn", "stack": STK, "reduced": "Seq[Int]"},
+    list_params=["stack", "reduced"], modifies=["stack", "reduced"],
+    returns="Tup[Seq[Int],%s]" % STK,
+    callables={"distance_points": DISTFN},
+    use={"kneeliverse.evaluation.compute_global_cost": "kneeliverse.evaluation.compute_global_cost#shared"},
+    requires=["len(points) >= 2", SORTED_RED, "reduced[0] == 0 and reduced[len(reduced)-1] == len(points) - 1"] + state_ok(),
+    ensures=state_ok("result[1]", "result[0]") + [
+        "forall2(0, len(result[0]), lambda a, b: result[0][a] < result[0][b])",
+        "seq_eq(result[0], reduced)",
+        "len(result[0]) >= len(old(reduced))",
+    ],
+    loops={0: dict(
+        inv=[c for c in state_ok() if not c.startswith("exists(")] + [
+            SORTED_RED,
+            "reduced[0] == 0 and reduced[len(reduced)-1] == len(points) - 1",
+            "pigeonhole(reduced, len(points))",
+            "len(reduced) >= len(old(reduced))",
+            # the shared cost cache stays consistent with the curve (precondition of every global-cost evaluation)
+            "forall(0, len(points), lambda l: forall(0, len(points), lambda r: implies((l, r) in cache, cache[(l, r)] == %s and cache[(l, r)] >= 0)))" % _seg_err("l", "r"),
+            "implies('tss' in cache, cache['tss'] == %s)" % _TSS,
+        ],
+        # (T) every iteration retains one more point: at most n-2 iterations
+        var="len(points) - len(reduced)",
+    )},
+)
+
+
+_WR = [
+    "result[0][0] == 0 and result[0][len(result[0])-1] == len(points) - 1",
+    "forall2(0, len(result[0]), lambda a, b: result[0][a] < result[0][b])",
+    "len(result[1]) == len(result[0]) - 1",
+    "forall(0, len(result[1]), lambda k: result[1][k][0] == result[0][k] and result[1][k][1] == result[0][k+1] - result[0][k] - 1)",
+]
+_GR = dict(
+    function="kneeliverse.rdp.grdp", mode="U", owner="C01",
+    params={"points": PTS, "t": "Real", "distance": DIST, "cost": METRIC, "order": ORDER},
+    returns="Tup[Seq[Int],Seq[Tup[Int,Int]]]", locals={"stack": STK, "reduced": "Seq[Int]"}, ensures=_WR,
+)
+C["kneeliverse.rdp.grdp#n>2"] = dict(_GR, requires=["len(points) > 2"])
+C["kneeliverse.rdp.grdp#n=2"] = dict(_GR, requires=["len(points) == 2"])
+_MP = dict(
+    function="kneeliverse.rdp.mp_grdp", mode="U", owner="C01",
+    params={"points": PTS, "t": "Real", "min_points": "Int", "distance": DIST, "cost": METRIC, "order": ORDER},
+    returns="Tup[Seq[Int],Seq[Tup[Int,Int]]]", locals={"stack": STK, "reduced": "Seq[Int]"},
+    ensures=_WR + ["len(result[0]) >= min2(min_points, len(points))"],          # C06: at least min(m, n) points
+)
+C["kneeliverse.rdp.mp_grdp#n>2"] = dict(_MP, requires=["len(points) > 2"])
+C["kneeliverse.rdp.mp_grdp#n=2"] = dict(_MP, requires=["len(points) == 2"])
+
+
+# union of the two verified specifications (#n>2, #n=2): same postconditions for every curve with n >= 2
+C["kneeliverse.rdp.grdp"] = dict(_GR, requires=["len(points) >= 2"], derived_from=["kneeliverse.rdp.grdp#n>2", "kneeliverse.rdp.grdp#n=2"])
+C["kneeliverse.rdp.rdp_fixed"] = dict(_RF, requires=["len(points) >= 2"], derived_from=["kneeliverse.rdp.rdp_fixed#n>2", "kneeliverse.rdp.rdp_fixed#n=2"])
+C["kneeliverse.rdp.min_point_rdp"] = dict(
+    mode="U", owner="C01",
+    params={"points": PTS, "t": "Seq[Real]", "min_points": "Int"}, list_params=["t"],
+    returns="Tup[Seq[Int],Seq[Tup[Int,Int]]]",
+    requires=["len(points) >= 2"],
+    ensures=_WR + ["len(result[0]) >= min2(min_points, len(points))"],
+    loops={0: dict(inv=["True"])},
+)
